@@ -130,9 +130,9 @@ PROPS['C01'] = dict(
 
 PROPS['C17'] = dict(
     title='Token groups partition the token sequence; tensorisation is faithful',
-    groups=[dict(template='c17_tensor.rs'), dict(template='c01_byte.rs')],
-    claim="ByteTokenizer::process_input: the (nested) group lengths sum to prefix + ids + suffix and there is one group per character / special token / prefix / suffix token; padding_mask: row b is true^len_b then false up to the maximum; pad_ids: row b is the item's ids followed only by padding, reported lengths are the true lengths; from_shape_vec cannot fail.",
-    not_covered=['token_groups_to_sparse_coo_matrix (iter_mut().for_each / zip idioms, float weights)', 'TokenGroup::get_weights (floats)', 'Tensorize for Batch<TrainItem>'],
+    groups=[dict(template='c17_tensor.rs'), dict(template='c17_sparse.rs'), dict(template='c01_byte.rs')],
+    claim="ByteTokenizer::process_input: the (nested) group lengths sum to prefix + ids + suffix and there is one group per character / special token / prefix / suffix token; padding_mask: row b is true^len_b then false up to the maximum; pad_ids: row b is the item's ids followed only by padding, reported lengths are the true lengths; from_shape_vec cannot fail; token_groups_to_sparse_coo_matrix (for groupings whose nested lengths sum to the sequence lengths): declared size = [batch, largest group count, largest length], one column per token, every index inside the declared size, the offset assertion holds, no overflow.",
+    not_covered=['the float weights written by token_groups_to_sparse_coo_matrix (values / get_weights); ', 'TokenGroup::get_weights (floats)', 'Tensorize for Batch<TrainItem>'],
     assumptions=['ndarray from_shape_vec/from_vec keep row-major data', 'R6 helper contracts (vt_extend_repeat, vt_max_or0, vt_max_len, vt_as_slice, vt_extend_cloned, vt_code_point_groups)'],
     domain=['rows * cols <= usize::MAX'],
 )
